@@ -44,12 +44,14 @@ GM_DATA = {'T1': (3, 'mixed', 'rotated', (), 40, 'str'), 'T2': (2, 'equi+', 'nor
            'T3': (3, 'ar1', 'rotated', (1,), 30, 'str'), 'N3': ('ndarray', (3, 'ar1', 'normal', (), 35, 'plain')),
            'N2': ('ndarray', (2, 'equi-', 'rotated', (), 30, 'plain')), 'EMPTY': 'empty', 'NAN': 'nan', 'OBJ': 'object'}
 VINE_DATA = {'V1': (3, 'mixed', 'rotated', (), 40, 'plain'), 'V2': (2, 'equi+', 'rotated', (), 40, 'str'),
-             'V3': (4, 'ar1', 'normal', (), 50, 'str'), 'EMPTY': 'empty', 'NAN': 'nan'}
+             'V3': (4, 'ar1', 'normal', (), 50, 'str'), 'EMPTY': 'empty', 'NAN': 'nan',
+             # the same tables fitted with an explicit truncation: a later plain fit must not inherit it
+             'V3t1': ('trunc', 1, (4, 'ar1', 'normal', (), 50, 'str')), 'V1t1': ('trunc', 1, (3, 'mixed', 'rotated', (), 40, 'plain'))}
 RANDOMISED_BY_DESIGN = {('kde', None, 15, False), ('univariate', 'selection-sample')}
 
 
 def bounds(tier):
-    return {'uni_configs': len(UNI_CONFIGS), 'datasets_per_kind': {'uni': 6, 'biv': 4, 'gm': 8, 'vine': 5},
+    return {'uni_configs': len(UNI_CONFIGS), 'datasets_per_kind': {'uni': 6, 'biv': 4, 'gm': 8, 'vine': 7},
             'depth': {'fast': 3 if tier == 'quick' else 4, 'slow': 2 if tier == 'quick' else 3}, 'poisons': ['nan', 0.0, 0.731, -0.9]}
 
 
@@ -61,7 +63,7 @@ def cases(tier, seed):
         out.append(('refit', 'uni', c, (2 if slow else 3) + deep))
     for f in ('clayton', 'gumbel', 'frank'):
         out.append(('refit', 'biv', f, 3 + deep))
-    for c in ('gaussian-class', 'kde-instance', 'default') + (() if tier == 'quick' else ('dict', 'uniform-name')):
+    for c in ('gaussian-class', 'kde-instance', 'default', 'flaky-dict') + (() if tier == 'quick' else ('dict', 'uniform-name')):
         out.append(('refit', 'gm', c, 2 + (deep if c != 'default' else 0)))
     for v in ('center', 'direct', 'regular'):
         out.append(('refit', 'vine', v, 2 + deep))
@@ -91,7 +93,16 @@ def new_model(kind, cfg):
         return Bivariate(copula_type=cfg)
     if kind == 'gm':
         from copulas.multivariate import GaussianMultivariate
-        dist = tables.make_config(cfg, [])
+        if cfg == 'flaky-dict':
+            # 'a' cannot be fitted on T3 (constant -3.3) but can on T1; 'c' the other way round: a Gaussian fallback taken in one
+            # fit must not become the configuration of the next
+            from mc.boom import FlakyUniform
+            dist = {'a': FlakyUniform, 'c': FlakyUniform, 'b': U.GaussianKDE(bw_method=0.5)}
+        elif cfg == 'dict':
+            dist = {'b': U.GaussianUnivariate, 'c': 'copulas.univariate.uniform.UniformUnivariate',
+                    0: U.GaussianKDE(bw_method='silverman'), 2: U.GaussianUnivariate}          # 'a' and array columns: default
+        else:
+            dist = tables.make_config(cfg, [])
         return GaussianMultivariate() if dist is None else GaussianMultivariate(distribution=dist)
     from copulas.multivariate import VineCopula
     with warnings.catch_warnings():
@@ -114,6 +125,8 @@ def data_for(kind, name):
         return pd.DataFrame({'a': ['x', 'y', 'z'], 'b': [1.0, 2.0, 3.0]})
     if isinstance(spec, tuple) and spec[0] == 'ndarray':
         return tables.gaussian_copula_table(spec[1])[0].to_numpy()
+    if isinstance(spec, tuple) and spec[0] == 'trunc':
+        return tables.gaussian_copula_table(spec[2])[0]
     return tables.gaussian_copula_table(spec)[0]
 
 
@@ -128,13 +141,17 @@ def obs_spec(kind, cfg, name):
         if isinstance(spec, tuple) and spec[0] == 'ndarray':
             spec = ('ndarray',) + tuple(spec[1])
         return ('gm', cfg, spec)
-    return ('vine', cfg, VINE_DATA[name])
+    spec = VINE_DATA[name]
+    return ('vine', cfg, spec[2] if isinstance(spec, tuple) and spec[0] == 'trunc' else spec)
 
 
 def do_fit(m, kind, name):
     np.random.seed(77)
     X = data_for(kind, name)
     X = X.copy()
+    spec = VINE_DATA.get(name) if kind == 'vine' else None
+    if isinstance(spec, tuple) and spec[0] == 'trunc':
+        return zoo.attempt(m.fit, X, truncated=spec[1])
     return zoo.attempt(m.fit, X)
 
 
